@@ -5,33 +5,33 @@ from .. import diffpipe as D
 ALLV = [(2, 7), (3, 6), (3, 7), (3, 8), (3, 9), (3, 10), (3, 11), (3, 12), (3, 13)]
 
 CONF = {
-    "C02": dict(must=["t_many_consts", "t_many_names", "t_many_locals", "t_long_body"],
+    "C02": dict(must=["t_opcode_zoo", "t_opcode_zoo2", "t_many_consts", "t_many_names", "t_many_locals", "t_long_body"],
                 versions=ALLV, sections=["dis"], focus=["EXTENDED_ARG", "many_consts", "many_names", "long_body", "many_locals"],
                 quick=(40, 30), thorough=(900, 300), max_code_quick=6000, max_code_thorough=10000, min_eval=200,
                 rule="one evaluation = one code object's instruction stream from xdis.Bytecode(co, opc) checked for exact tiling of "
                      "co_code and compared at V's offsets (opcode, opname, folded operand) with V's dis.get_instructions "
                      "(2.7: interpreter's opcode tables cross-checked against dis.disassemble text); distinct = SHA-1 of co_code; "
                      "non-trivial = >= 8 instructions or contains EXTENDED_ARG"),
-    "C03": dict(must=["t_closure", "t_class3", "t_pep695", "t_many_consts", "t_many_names", "t_many_locals", "t_compare", "t_comp"],
+    "C03": dict(must=["t_opcode_zoo", "t_opcode_zoo2", "t_closure", "t_class3", "t_pep695", "t_many_consts", "t_many_names", "t_many_locals", "t_compare", "t_comp"],
                 versions=ALLV, sections=["dis"], focus=["closure", "cell_param", "class", "comprehension", "many_consts", "many_names",
                                                         "many_locals", "compare", "super"],
                 quick=(40, 40), thorough=(900, 300), max_code_quick=6000, max_code_thorough=10000, min_eval=1000,
                 rule="one evaluation = one table-indexed instruction (const/name/local/free/compare) whose canonical argval from xdis "
                      "is compared with V's dis argval at the same offset; distinct = (version, opname, operand class, big-table flag); "
                      "non-trivial = operand != 0"),
-    "C04": dict(must=["t_async", "t_control", "t_try_nest", "t_match", "t_long_body", "t_comp", "t_long_loop", "t_except_star"],
+    "C04": dict(must=["t_opcode_zoo", "t_opcode_zoo2", "t_async", "t_control", "t_try_nest", "t_match", "t_long_body", "t_comp", "t_long_loop", "t_except_star"],
                 versions=ALLV, sections=["dis", "labels"], focus=["loops", "try", "async", "match", "long_jump", "generator", "try_nest"],
                 quick=(40, 40), thorough=(900, 300), max_code_quick=6000, max_code_thorough=10000, min_eval=200,
                 rule="one evaluation = one code object: set(opc.findlabels) vs V's dis.findlabels, every jump argval vs V's, "
                      "is_jump_target flags vs labels U 3.11+ handler targets, every label an instruction start or len(co_code); "
                      "distinct = SHA-1 of co_code; non-trivial = has >= 1 jump"),
-    "C05": dict(must=["t_line_gaps", "t_backward_lines", "t_long_loop", "t_long_columns", "t_doc"],
+    "C05": dict(must=["t_opcode_zoo", "t_opcode_zoo2", "t_line_gaps", "t_backward_lines", "t_long_loop", "t_long_columns", "t_doc"],
                 versions=ALLV, sections=["dis", "lines"], focus=["line_gaps", "backward_lines", "multiline_expr", "long_columns"],
                 quick=(25, 30), thorough=(900, 300), max_code_quick=3000, max_code_thorough=10000, min_eval=200,
                 rule="one evaluation = one code object: list(opc.findlinestarts(co)) vs V's dis.findlinestarts, starts_line of the "
                      "dup_lines=False stream exact and of the dup_lines=True stream a consistent superset, plus offset2line queries "
                      "against a linear scan; distinct = SHA-1 of (line starts, firstlineno); non-trivial = >= 2 line starts"),
-    "C17": dict(must=["t_long_columns", "t_line_gaps", "t_backward_lines", "t_long_loop", "t_try_nest", "t_except_star", "t_async", "t_control"],
+    "C17": dict(must=["t_opcode_zoo", "t_opcode_zoo2", "t_long_columns", "t_line_gaps", "t_backward_lines", "t_long_loop", "t_try_nest", "t_except_star", "t_async", "t_control"],
                 versions=[(3, 11), (3, 12), (3, 13)], sections=["pos"], focus=["try", "try_nest", "long_columns", "line_gaps",
                                                                                 "backward_lines", "except_star", "async"],
                 quick=(80, 60), thorough=(2500, 600), max_code_quick=1 << 30, max_code_thorough=1 << 30, min_eval=200,
